@@ -293,9 +293,15 @@ func cmdShrink(args []string) int {
 	}
 	// (1) confirm: the recorded trace (with its blobs) must fail the same way in this process.
 	r0 := ExecTrace(c, *tier, rec.Index, rec.Seed, rec.Trace, rec.Blobs, kf)
-	if r0.HarnessErr != "" || r0.Viol == nil || r0.Viol.Class != rec.Violation.Class {
+	if r0.HarnessErr != "" || r0.Viol == nil {
 		fmt.Fprintf(os.Stderr, "HARNESS: recorded violation did not re-execute (got %v, harness err %q)\n", r0.Viol, r0.HarnessErr)
 		return 2
+	}
+	if r0.Viol.Class != rec.Violation.Class {
+		// Same property, other class (e.g. a multi-GiB allocation that trips the wall-clock bound on
+		// a loaded machine and the allocation bound otherwise): what re-executes is what is reported.
+		fmt.Fprintf(os.Stderr, "note: violation re-executed with class %s instead of %s; reporting the re-executed one\n", r0.Viol.Class, rec.Violation.Class)
+		rec.Violation = r0.Viol
 	}
 	// (2) shrink
 	best, execs := Shrink(c, *tier, rec.Index, rec.Seed, rec.Trace, rec.Violation, kf, *maxExecs, *maxWall)
